@@ -348,13 +348,21 @@ func (repo *BlockRepository) Revert(ctx context.Context, height int) error {
 		return errors.New(fmt.Sprintf("Revert height %d above current height %d", height, repo.height))
 	}
 
-	// Revert heights map
+	// Make sure the latest file in storage matches the cached headers so that it can be removed or
+	// truncated below.
+	if err := repo.save(ctx); err != nil {
+		return errors.Wrap(err, "Failed to save before revert")
+	}
+
+	// Collect the hashes to remove from the heights map. They are only removed after the files
+	// are updated so a failed revert doesn't leave the map without them.
+	removedHashes := make([]bitcoin.Hash32, 0, repo.height-height)
 	for removeHeight := repo.height; removeHeight > height; removeHeight-- {
 		hash, err := repo.getHash(ctx, removeHeight)
 		if err != nil {
 			return errors.Wrap(err, "Failed to revert block heights map")
 		}
-		delete(repo.heights, *hash)
+		removedHashes = append(removedHashes, *hash)
 	}
 
 	// Height of last block of latest full file
@@ -398,6 +406,11 @@ func (repo *BlockRepository) Revert(ctx context.Context, height int) error {
 		repo.lastHeaders = append(repo.lastHeaders, header)
 	}
 	repo.height = height
+
+	// Revert heights map
+	for _, hash := range removedHashes {
+		delete(repo.heights, hash)
+	}
 	return nil
 }
 
